@@ -111,6 +111,9 @@ def build_module(module: str, cls: str, vtype: str, lit: str, deps: list[dict[st
 	if wide:
 		lines += ['', '']
 		lines.append(f"TABLE_{tag}: dict[str, list[int]] = {{'k': [1]}}")
+		lines += ['', '']
+		lines.append(f'def limit_{tag}() -> int:')
+		lines.append('\treturn 3')
 	if wide:
 		# >= 11 sibling attributes (two-digit index paths in the stored symbol form) and nested generics below them
 		lines += ['', '']
@@ -133,6 +136,9 @@ def build_module(module: str, cls: str, vtype: str, lit: str, deps: list[dict[st
 		lines.append(f"\twd = wide_{tag}(0, 'a', 1.5, [1], {{'k': 1}}, True, o, ['s'], {{'k': [1]}}, 2.5, [o], own)")
 		lines.append('\twd2 = wd')
 	if doc:
+		# identifiers spelled like the soft keywords: their tokens carry the types MATCH / CASE below the `name` rule
+		lines.append('\tmatch = k + 1')
+		lines.append('\tcase = match')
 		lines.append("\ttxt = '''first")
 		lines.append("second line'''")
 		lines.append('\ttxt2 = txt')
@@ -185,6 +191,11 @@ def build_module(module: str, cls: str, vtype: str, lit: str, deps: list[dict[st
 		lines.append('\t\tprint(key, val)')
 	lines.append('\tfor x in xs:')
 	lines.append('\t\tprint(x)')
+	if wide:
+		# the last local shadows a module-level function: its record is among the last of the stored table, and without it the name still
+		# resolves -- to the function, so the declaration turns into a plain assignment
+		lines.append(f"\tlimit_{tag} = 'shadow'")
+		lines.append(f'\tprint(limit_{tag})')
 	lines.append('\treturn k if k > 0 else len(xs)')
 	return '\n'.join(lines) + '\n'
 
